@@ -46,6 +46,12 @@ def check(pid, engine, category, text, note, technique, design_ref):
 
 exec(open(os.path.join(HERE, 'tools', 'manifest_checks.py')).read())  # pylint: disable=exec-used
 
+for _entry in CHECKS.values():
+    _entry['level_claimed']['text'] += (
+        ' Every check also runs seeded histories of its own runs: each run alone in a pristine forked process vs. '
+        'after the runs before it in one long-lived process; a recorded outcome that depends on earlier runs is a '
+        'violation (DESIGN.md 2.1).')
+
 manifest = {
     'version': 1,
     'setup_cmd': './setup.sh',
@@ -63,7 +69,7 @@ manifest = {
          'serves_properties': [p for p in ('C02', 'C03', 'C04', 'C19') if p in CHECKS],
          'kind_free_text': 'sender (real compose) / simulated transport with seeded segmentation and transit faults / '
                            'reader loop around the real parse_* entry points; sys.monitoring step clock'},
-        {'name': 'objsim', 'path': 'simverif/objsim.py',
+        {'name': 'objsim', 'path': 'simverif/props',
          'serves_properties': [p for p in ('C11', 'C12', 'C13', 'C14') if p in CHECKS],
          'kind_free_text': 'seeded operation histories over live library objects against reference models; process '
                            'environment (TZ, hash seed, encoder state) as the varied dimension'},
